@@ -15,8 +15,10 @@ MODULES = {
     "C01": ("lockstep", "run_c01"),
     "C02": ("lockstep", "run_c02"),
     "C03": ("lockstep", "run_c03"),
+    "C07": ("c07", "run"),
     "C12": ("c12", "run"),
     "C17": ("lockstep", "run_c17"),
+    "C18": ("c18", "run"),
 }
 
 
